@@ -36,6 +36,7 @@ func genCase(profile string) *rapid.Generator[Case] {
 			c.Cfg.Workers2 = rapid.IntRange(1, 4).Draw(t, "workers2n") // another worker count after a restart
 		}
 		c.Cfg.InCh = rapid.IntRange(1, 8).Draw(t, "inch")
+		c.Cfg.OnError = rapid.IntRange(0, 3).Draw(t, "onerror") == 0
 		c.Cfg.QDurMs = rapid.SampledFrom([]int{1000, 3000}).Draw(t, "qdur")
 		var sets []string
 		if profile == "shutdown" {
